@@ -40,7 +40,7 @@ TRUSTED_BASE = [
     "extraction plugin with ExtrOcamlBasic only (bool, option, unit, list, prod, sumbool, sumor mapped to OCaml types; andb/orb inlined); no Extract Constant/Inductive of our own; OCaml 4.13.1; extract/driver.ml (corpus parser, printing)",
     "hand-written Gallina model of strum_macros (coq/Model/*.v) tied to /repo by this run's differential correspondence; corpus generators, Rust renderer and observers (tools/), cargo/rustc",
     "modelled not verified: syn attribute parsing, quote! assembly, generics/where-clauses/trait dispatch (decided by rustc on the corpus), Rust match semantics, phf, core::fmt",
-    "names of NON-ASCII identifiers: outside the theorems (stated over ASCII identifiers); decided by a Rust reference written on heck 0.5.0 (harness/genprobe `mod reference`) and carried through the model as a declared spelling — a Rust-vs-Rust differential",
+    "names of NON-ASCII identifiers: Model/HeckU.v (heck and convert_case over scalar values, parametric in the character database; theorems C07u_*, C13u_*) instantiated with a finite table printed by Rust's own char::is_lowercase / is_uppercase / is_alphanumeric / to_lowercase / to_uppercase (harness/genprobe `chartab`: std's Unicode tables are trusted); identifiers containing U+03A3 (context-dependent final sigma) are outside that model and decided by a Rust reference written on heck 0.5.0 (`mod reference`), a Rust-vs-Rust differential; either way the name is carried through the rest of the model as a declared spelling",
 ]
 
 
